@@ -222,7 +222,54 @@ def row_type(a, b):
     return 'unbounded'
 
 
+# The property fixes no particular map: any bijection with the matching Jacobian is legal. Once the transform
+# section has established that the implementation's forward/back pair is a bijection whose reported log-Jacobian is
+# the derivative of its back-transform, the Metropolis-Hastings references are built on the implementation's own
+# bijection (proposal = back(forward(theta) + step), Jacobian = numeric derivative of its back-transform).
+# The closed forms below remain as *_closed for naming violation classes of the documented logit/log map.
+_IMPL = {'fwd': None, 'back': None}
+
+
+def use_implementation_transform(fwd, back):
+    _IMPL['fwd'] = fwd
+    _IMPL['back'] = back
+
+
 def fwd_ref(theta, bound):
+    if _IMPL['fwd'] is not None:
+        return np.asarray(_IMPL['fwd'](np.asarray(theta, dtype=float).reshape(-1), np.array(bound, dtype=float)),
+                          dtype=float).reshape(-1)
+    return fwd_closed(theta, bound)
+
+
+def back_ref(y, bound):
+    if _IMPL['back'] is not None:
+        return np.asarray(_IMPL['back'](np.asarray(y, dtype=float).reshape(-1), np.array(bound, dtype=float)),
+                          dtype=float).reshape(-1)
+    return back_closed(y, bound)
+
+
+def logjac_ref(y, bound):
+    if _IMPL['back'] is not None:
+        return logjac_numeric5(lambda v, b: _IMPL['back'](np.asarray(v, dtype=float), np.array(b, dtype=float)), y, bound)
+    return logjac_closed(y, bound)
+
+
+def logjac_numeric5(back, y, bound, h=1e-3):
+    """log |det d back / dy| by a 5-point stencil (error O(h^4)) of the given coordinate-wise back-transform."""
+    y = np.asarray(y, dtype=float).reshape(-1)
+    s = 0.0
+    for i in range(len(y)):
+        def f(t):
+            z = y.copy()
+            z[i] = y[i] + t
+            return float(np.asarray(back(z, bound), dtype=float).reshape(-1)[i])
+        d = (-f(2 * h) + 8 * f(h) - 8 * f(-h) + f(-2 * h)) / (12 * h)
+        s += math.log(abs(d))
+    return s
+
+
+def fwd_closed(theta, bound):
     out = []
     for x, (a, b) in zip(np.asarray(theta, dtype=float).reshape(-1), bound):
         t = row_type(a, b)
@@ -237,7 +284,7 @@ def fwd_ref(theta, bound):
     return np.array(out)
 
 
-def back_ref(y, bound):
+def back_closed(y, bound):
     out = []
     for v, (a, b) in zip(np.asarray(y, dtype=float).reshape(-1), bound):
         t = row_type(a, b)
@@ -258,7 +305,7 @@ def back_ref(y, bound):
     return np.array(out)
 
 
-def logjac_ref(y, bound):
+def logjac_closed(y, bound):
     """log |det d theta / d theta_tilde| at the transformed point y (closed forms; the transform is diagonal)."""
     s = 0.0
     for v, (a, b) in zip(np.asarray(y, dtype=float).reshape(-1), bound):
